@@ -106,8 +106,21 @@ func c16MenuLines() []c16Menu {
 	return ms
 }
 
+// a source the assembler must refuse (a selector of more than 255 bytes): assembled before
+// every tenth case, so that anything a refused source leaves behind in the assembler
+// (package-level buffers, pools) would show up in the next program's bytes
+var c16Refused = "INCMP foo " + strings.Repeat("x", 300) + "\n"
+var c16Count int
+
 func c16Assemble(src string) (string, error) {
 	defer func() { recover() }()
+	c16Count++
+	if c16Count%10 == 0 {
+		func() {
+			defer func() { recover() }()
+			Parse(c16Refused, bytes.NewBuffer(nil))
+		}()
+	}
 	w := bytes.NewBuffer(nil)
 	if _, err := Parse(src, w); err != nil {
 		return "", fmt.Errorf("assemble: %v", err)
